@@ -330,7 +330,12 @@ class Check:
             i = run.args.index("--watchdog")
             try:
                 w = int(run.args[i + 1])
-                run.args[i + 1] = str(max(w * (8 if self.tier == "thorough" else 3), 600 if self.tier == "thorough" else 180))
+                if os.environ.get("VERIF_WATCHDOG_SCALE"):
+                    # used by tools/seed_matrix.sh only: hangs on mutated trees are resolved faster
+                    run.args[i + 1] = str(int(w * float(os.environ["VERIF_WATCHDOG_SCALE"])))
+                else:
+                    run.args[i + 1] = str(max(w * (8 if self.tier == "thorough" else 3),
+                                              600 if self.tier == "thorough" else 180))
             except (ValueError, IndexError):
                 pass
         self.runs.append(run)
